@@ -216,7 +216,7 @@ theorem eventBody_inv (c : Cfg) (rec : Call → St → St) (hr : RecSpec c rec) 
   dsimp only
   have h1 : Inv c (s.push (.arrive d)) := h.push _ trivial
   split
-  · exact h1.of_eq rfl rfl
+  · refine (h1.push (.refused d) trivial).of_eq ?_ ?_ <;> (unfold St.refuse; split <;> rfl)
   · -- the state after the optional early initialisation
     generalize hs2 : (if 0 ≤ ((s.push (.arrive d)).setActive d true).steps d ∧
         ((s.push (.arrive d)).setActive d true).steps d < 2
